@@ -40,6 +40,7 @@ type c18StubTxn struct {
 	Reset    bool // the client calls Reset after a refused DATA (otherwise it goes straight to the next Mail)
 	Retry    bool // the refusal is a passing one: the client asks again in the same transaction and gets 354
 	FirstOp  int  // index of the refused first attempt when Retry
+	MailOp   int
 }
 
 // genC18Stub: the real LMTP client against a scripted server. What the real
@@ -56,11 +57,12 @@ func genC18Stub(t *Tape, sc *Scenario, x *c18X) *Scenario {
 			tx.Reset = t.Bool()
 		}
 		st := StubTxn{Data: tx.Data}
+		tx.MailOp = len(cl.Ops)
 		cl.Ops = append(cl.Ops, ClientOp{Kind: opMail, Arg: fmt.Sprintf("ok-s%d@a.example", m)})
 		n := 1 + t.Intn(3)
 		for i := 0; i < n; i++ {
 			r := fmt.Sprintf("ok-t%dr%d@b.example", m, i)
-			code := 250
+			code := []int{250, 250, 250, 251, 252}[t.Intn(5)] // 251 and 252 accept a recipient as 250 does
 			if i > 0 && t.Chance(1, 4) {
 				code = 550
 			}
@@ -68,7 +70,7 @@ func genC18Stub(t *Tape, sc *Scenario, x *c18X) *Scenario {
 			tx.RcptCode = append(tx.RcptCode, code)
 			st.Rcpt = append(st.Rcpt, code)
 			cl.Ops = append(cl.Ops, ClientOp{Kind: opRcpt, Arg: r})
-			if code == 250 {
+			if code/100 == 2 {
 				f := []int{250, 250, 452, 550}[t.Intn(4)]
 				tx.Finals = append(tx.Finals, f)
 				st.Finals = append(st.Finals, f)
@@ -117,6 +119,12 @@ func checkC18Stub(sc *Scenario, h *History, x *c18X) []Violation {
 			}
 		}
 		d := res[tx.DataOp]
+		for i, code := range tx.RcptCode {
+			// the Rcpt ops of this transaction directly follow its Mail op
+			if ri := tx.MailOp + 1 + i; code/100 == 2 && ri < len(res) && res[ri].Kind == opRcpt && res[ri].Err != "" {
+				v("C18.rcpt", "transaction %d: the server accepted recipient %d with %d but Rcpt returned %q", ti, i, code, res[ri].Err)
+			}
+		}
 		if tx.Retry && res[tx.FirstOp].DataErr == "" {
 			v("C18.data", "transaction %d: the server refused the first DATA with %d but Data()/LMTPData() returned no error", ti, tx.Data)
 		}
@@ -136,7 +144,7 @@ func checkC18Stub(sc *Scenario, h *History, x *c18X) []Violation {
 			allOK := true
 			k := 0
 			for i, r := range tx.Rcpts {
-				if tx.RcptCode[i] != 250 {
+				if tx.RcptCode[i]/100 != 2 {
 					continue
 				}
 				want = append(want, fmt.Sprintf("%s=%d", r, tx.Finals[k]))
@@ -428,6 +436,14 @@ func checkC18(sc *Scenario, h *History) []Violation {
 				v("C18.close-twice", "transaction %d: the second Close wrote %d octets to the connection", ti, d.RawAfter-d.RawBefore)
 			}
 		}
+		if d.StaleSet {
+			if d.StaleErr == "" {
+				v("C18.close-twice", "transaction %d: closing the previous message's writer again, while this message was being written, returned nil", ti)
+			}
+			if d.StaleRaw != 0 {
+				v("C18.close-twice", "transaction %d: closing the previous message's writer again put %d octets on the wire in the middle of this message", ti, d.StaleRaw)
+			}
+		}
 		if tx.NoopOp < len(res) && res[tx.NoopOp].Err != "" {
 			v("C18.desync", "transaction %d: the NOOP after it failed: %s", ti, res[tx.NoopOp].Err)
 		}
@@ -446,6 +462,12 @@ func classifyC18(sc *Scenario, h *History, st *Stats) string {
 		for i, tx := range x.Stub {
 			if tx.Retry {
 				st.Probes["DATA_refused_once_then_accepted_in_the_same_transaction"]++
+			}
+			for _, c := range tx.RcptCode {
+				if c == 251 || c == 252 {
+					st.Probes["recipient_accepted_with_251_or_252"]++
+					break
+				}
 			}
 			if tx.Data != 354 {
 				st.Faults["DATA_refused_after_recipients_were_accepted"]++
@@ -496,7 +518,7 @@ func classifyC18(sc *Scenario, h *History, st *Stats) string {
 func init() {
 	register(&Property{
 		ID: "C18", Level: "exploration",
-		Rule:     "real LMTP smtp.Client against the real LMTP smtp.Server with a per-recipient backend: 1-3 consecutive transactions (systematic) x 1-3 accepted recipients each, some extra recipients refused at RCPT, per-recipient verdicts {250, 550, 452} set before/after reading/after a park, LMTPData with a callback or Data without (systematic), a NOOP after every transaction. Every case is non-trivial; distinct by the per-transaction (recipient count, verdict vector, API) list. Replies re-cut by the network; a per-recipient status or the message itself later than CommandTimeout; the same broken-off-exchange stratum as C16 with a per-recipient false-success oracle. In a quarter of the later transactions the previous message's writer is closed once more after this message's first Write: an error for that caller, no octet on the wire.",
+		Rule:     "real LMTP smtp.Client against the real LMTP smtp.Server with a per-recipient backend: 1-3 consecutive transactions (systematic) x 1-3 accepted recipients each, some extra recipients refused at RCPT, per-recipient verdicts {250, 550, 452} set before/after reading/after a park, LMTPData with a callback or Data without (systematic), a NOOP after every transaction. Every case is non-trivial; distinct by the per-transaction (recipient count, verdict vector, API) list. Replies re-cut by the network; a per-recipient status or the message itself later than CommandTimeout; the same broken-off-exchange stratum as C16 with a per-recipient false-success oracle. In a quarter of the later transactions the previous message's writer is closed once more after this message's first Write: an error for that caller, no octet on the wire. The scripted server accepts some recipients with 251 or 252, which count as accepted like 250.",
 		Gen:      genC18,
 		Check:    checkC18,
 		Classify: classifyC18,
@@ -518,7 +540,7 @@ func init() {
 		Real:        []string{"smtp.Client (NewClientLMTP, Mail, Rcpt, LMTPData, Data, dataCloser.Close, Noop, Quit)", "smtp.Server in LMTP mode, handleDataLMTP, statusCollector", "net/textproto"},
 		Stub:        []string{"net.Listener (SimListener)", "net.Conn (SimConn)", "Backend/LMTPSession (SimBackend)", "in a fifth of the seeded runs the peer is a scripted LMTP server instead of smtp.Server (it can refuse DATA after accepting recipients, which the real server never does)", "clock (synctest): a Close that waits for replies that never come costs 12 fake minutes and is detected as such"},
 		Assumptions: []string{"'Close returns once exactly those replies have been read' is judged as: within one fake minute, and the following NOOP gets its own reply"},
-		Required:    []string{"second_or_later_transaction", "recipient_refused_after_DATA", "recipient_refused_at_RCPT", "per_recipient_reply_later_than_CommandTimeout", "message_produced_slower_than_CommandTimeout", "conversation_broken_off_by_Server.Close", "conversation_broken_off_by_backend_panic", "conversation_broken_off_by_failing_reply_write", "conversation_broken_off_by_blocked_reply_write", "multi_line_per_recipient_reply", "DATA_refused_once_then_accepted_in_the_same_transaction", "DATA_refused_after_recipients_were_accepted", "next_Mail_without_Reset_after_refused_DATA", "previous_writer_closed_again_inside_the_next_message"},
+		Required:    []string{"second_or_later_transaction", "recipient_refused_after_DATA", "recipient_refused_at_RCPT", "per_recipient_reply_later_than_CommandTimeout", "message_produced_slower_than_CommandTimeout", "conversation_broken_off_by_Server.Close", "conversation_broken_off_by_backend_panic", "conversation_broken_off_by_failing_reply_write", "conversation_broken_off_by_blocked_reply_write", "multi_line_per_recipient_reply", "DATA_refused_once_then_accepted_in_the_same_transaction", "DATA_refused_after_recipients_were_accepted", "next_Mail_without_Reset_after_refused_DATA", "previous_writer_closed_again_inside_the_next_message", "recipient_accepted_with_251_or_252"},
 		QuickRuns:   120000, ThoroughRuns: 2000000,
 	})
 }
